@@ -3717,8 +3717,34 @@ def scale_reaches(r: R, chk, quals: List[str], rule="SCALE-REACHES", floor: int 
         fn = fi.node
         kv = [p for p in fi.params if "knot" in p.lower()]
 
+        # single knots and differences of knots may travel through locals (`umin, umax = U[0], U[-1]`, `length = umax - umin`)
+        knot_names, diff_names = set(), set()
+
+        def knotlike(e):
+            return (isinstance(e, ast.Subscript) and isinstance(e.value, ast.Name) and e.value.id in kv and not isinstance(e.slice, ast.Slice)) or (isinstance(e, ast.Name) and e.id in knot_names)
+
         def knot_diff(e):
-            return isinstance(e, ast.BinOp) and isinstance(e.op, ast.Sub) and all(isinstance(x, ast.Subscript) and isinstance(x.value, ast.Name) and x.value.id in kv for x in (e.left, e.right))
+            return (isinstance(e, ast.BinOp) and isinstance(e.op, ast.Sub) and knotlike(e.left) and knotlike(e.right)) or (isinstance(e, ast.Name) and e.id in diff_names)
+
+        grow = True
+        while grow:
+            grow = False
+            for a in ast.walk(fn):
+                if not (isinstance(a, ast.Assign) and len(a.targets) == 1):
+                    continue
+                pairs = []
+                t, v = a.targets[0], a.value
+                if isinstance(t, ast.Name):
+                    pairs = [(t, v)]
+                elif isinstance(t, ast.Tuple) and isinstance(v, ast.Tuple) and len(t.elts) == len(v.elts):
+                    pairs = [(x, y) for x, y in zip(t.elts, v.elts) if isinstance(x, ast.Name)]
+                for x, y in pairs:
+                    if knotlike(y) and x.id not in knot_names and x.id not in kv:
+                        knot_names.add(x.id)
+                        grow = True
+                    if knot_diff(y) and x.id not in diff_names:
+                        diff_names.add(x.id)
+                        grow = True
 
         def scaled(e):
             return any(isinstance(b, ast.BinOp) and isinstance(b.op, ast.Div) and any(knot_diff(x) for x in ast.walk(b.right)) for b in ast.walk(e))
@@ -3731,7 +3757,7 @@ def scale_reaches(r: R, chk, quals: List[str], rule="SCALE-REACHES", floor: int 
             if not (isinstance(ret, ast.Return) and ret.value is not None):
                 continue
             n += 1
-            ex = resolve_reaching(fn, ret.value, ret, keep=tuple(kv), params=fi.params, pos=pos)
+            ex = resolve_reaching(fn, ret.value, ret, keep=tuple(kv) + tuple(sorted(knot_names | diff_names)), params=fi.params, pos=pos)
             ok = scaled(ex)
             chk.ob(rule, f"{q}: `{seg(ret, 40)}` is computed from the value divided by the knot difference", ok, loc=f"{fi.module}.py:{ret.lineno}",
                    detail="" if ok else f"{q}: `{seg(ret, 50)}` does not depend on the division by the length of the parameter interval that the function performs elsewhere: this return hands back the derivative with respect to the reference parameter — correct on [0, 1] only, off by the factor 1 / (b - a) on every other interval (Newton steps of the projection too long by that factor)",
